@@ -84,6 +84,24 @@ def has_quantifier(e, _seen=None):
     return False
 
 
+_PAT_KINDS = None
+
+
+def _pattern_ok(e):
+    '''Only uninterpreted / select / datatype-accessor terms over variables and constants.'''
+    global _PAT_KINDS
+    if _PAT_KINDS is None:
+        _PAT_KINDS = {z3.Z3_OP_SELECT, z3.Z3_OP_UNINTERPRETED, z3.Z3_OP_DT_ACCESSOR, z3.Z3_OP_DT_CONSTRUCTOR,
+                      z3.Z3_OP_ANUM}
+    if z3.is_var(e) or z3.is_const(e):
+        return True
+    if not z3.is_app(e):
+        return False
+    if e.decl().kind() not in _PAT_KINDS:
+        return False
+    return all(_pattern_ok(c) for c in e.children())
+
+
 def auto_patterns(var, body):
     """Triggers for a quantifier: the seq-nth / array-select / function terms of the body
     that mention the bound variable directly (E-matching instead of model-based search)."""
@@ -96,7 +114,7 @@ def auto_patterns(var, body):
         seen.add(e.get_id())
         k = e.decl().kind()
         ch = e.children()
-        if k in (z3.Z3_OP_SEQ_NTH, z3.Z3_OP_SELECT, z3.Z3_OP_UNINTERPRETED) and any(c.eq(var) for c in ch):
+        if k in (z3.Z3_OP_SELECT, z3.Z3_OP_UNINTERPRETED) and any(c.eq(var) for c in ch) and _pattern_ok(e):
             if not any(p.eq(e) for p in pats):
                 pats.append(e)
         for c in ch:
@@ -119,6 +137,8 @@ class ObRec:
         sts = [r[0] for r in self.results]
         if 'sat' in sts:
             return 'failed'
+        if 'candidate' in sts:
+            return 'candidate'     # undecided, with a candidate counterexample for the replay
         if 'unknown' in sts:
             return 'undecided'
         return 'discharged'
@@ -127,7 +147,7 @@ class ObRec:
         return {'id': self.id, 'kind': self.kind, 'label': self.label, 'props': list(self.props),
                 'aux': self.aux, 'status': self.status, 'paths': len(self.results),
                 'solver_s': round(sum(r[1] for r in self.results), 4),
-                'models': [r[2] for r in self.results if r[0] == 'sat'][:2],
+                'models': [r[2] for r in self.results if r[0] in ('sat', 'candidate')][:2],
                 'backends': sorted(set(r[4] for r in self.results if len(r) > 4))}
 
 
@@ -294,7 +314,29 @@ class CoreMixin:
             if r2 == 'unsat':
                 rec.results.append(('unsat', dt, None, self.path_no, 'cvc5'))
             else:
-                rec.results.append(('unknown', dt, None, self.path_no, 'z3'))
+                # Satisfiability under universally quantified hypotheses is out of the solver's
+                # reach.  Look for a *candidate* counterexample: a model of the quantifier-free
+                # hypotheses and the negated goal.  It is not a verdict: the replay on the real
+                # code (which also evaluates the class invariant on the concrete pre-state)
+                # decides whether it is a violation.
+                cand = None
+                try:
+                    self.light.push()
+                    self.light.add(z3.Not(goal))
+                    t0 = time.time()
+                    rl = self.light.check()
+                    self.solver_s += time.time() - t0
+                    if rl == z3.sat:
+                        self._model_solver = self.light
+                        cand = self.capture_model() or {}
+                        cand['__candidate__'] = 'quantified hypotheses not used'
+                    self._model_solver = None
+                finally:
+                    self.light.pop()
+                if cand is not None:
+                    rec.results.append(('candidate', dt, cand, self.path_no, 'z3'))
+                else:
+                    rec.results.append(('unknown', dt, None, self.path_no, 'z3'))
         if assume_after:
             self.assume(goal)
 
@@ -309,19 +351,26 @@ class CoreMixin:
 
     def cover(self, label, extra=None):
         '''Vacuity guard: is this point reachable under the assumptions?'''
-        if self.covers.get(label) == 'reachable':
+        if str(self.covers.get(label, '')).startswith('reachable'):
             return
         if self.pc_has_quant:
             s2 = z3.Solver()
-            s2.set('timeout', self.check_timeout_ms)
+            s2.set('timeout', self.branch_timeout_ms)
             s2.add(self.solver.assertions())
             if extra is not None:
                 s2.add(extra)
             t0 = time.time()
             r = s2.check()
             self.solver_s += time.time() - t0
-            if r == z3.unknown and self._check_light() == z3.unsat:
-                r = z3.unsat
+            if r == z3.unknown:
+                # satisfiability with quantified hypotheses is often out of reach: fall back to
+                # the quantifier-free part (recorded as such)
+                rl = self._check_light(*([extra] if extra is not None else []))
+                if rl == z3.unsat:
+                    r = z3.unsat
+                elif rl == z3.sat and self.covers.get(label) != 'reachable':
+                    self.covers[label] = 'reachable(quantifier-free part)'
+                    return
         else:
             r, _ = self._check(*( [extra] if extra is not None else []), timeout=self.branch_timeout_ms)
         if r == z3.sat:
@@ -378,11 +427,15 @@ class CoreMixin:
             self.wf_seen.add(key)
             r = t.val(v.z)
             self.assume(z3.Or(t.is_none(v.z), z3.And(r > 0, r < c)))
-        elif isinstance(t, TList) and isinstance(t.elem, (TRef, TPkt)):
+        elif isinstance(t, TList):
+            from . import lists as L
             self.wf_seen.add(key)
-            i = z3.Int(fresh_name('wf_i'))
-            self.assume(z3.ForAll([i], z3.Implies(z3.And(i >= 0, i < z3.Length(v.z)),
-                                                  z3.And(v.z[i] > 0, v.z[i] < c)), patterns=[v.z[i]]))
+            self.assume(L.canon(t, v.z))
+            if isinstance(t.elem, (TRef, TPkt)):
+                i = z3.Int('wf_i')
+                sel = L.l_get(t, v.z, i)
+                self.assume(L.forall([i], z3.Implies(z3.And(i >= 0, i < L.l_len(t, v.z)),
+                                                     z3.And(sel > 0, sel < c)), patterns=[sel]))
         elif isinstance(t, TSet) and isinstance(t.elem, (TRef, TPkt)):
             self.wf_seen.add(key)
             x = z3.Int(fresh_name('wf_x'))
